@@ -34,6 +34,10 @@ pub struct Case {
     /// swept moment}: every caller must come back (the reloader stops while requests are in flight)
     #[serde(default)]
     stop_races: u16,
+    /// afterwards: that many threads flood the event channel with notifications nobody depends on while one
+    /// hot_reload call is made: the call handles what was queued when it arrived, not the flood
+    #[serde(default)]
+    flood: u8,
 }
 
 static STARTED: AtomicU64 = AtomicU64::new(0);
@@ -43,6 +47,49 @@ static MAX_IN_FLIGHT: AtomicU64 = AtomicU64::new(0);
 static WATCH_TAG: AtomicU64 = AtomicU64::new(0);
 static HARNESS_TIDS: std::sync::Mutex<Vec<u32>> = std::sync::Mutex::new(Vec::new());
 static STREAM_READS: AtomicU64 = AtomicU64::new(0);
+
+/// One hot_reload call against `producers` threads flooding the event channel. Progress is counted in events
+/// sent, not in time: the call must be back before the producers have sent `LIMIT` more events.
+fn flood(producers: u8, out: &mut Outcome) {
+    use crate::memsrc::MemSource;
+    use assets_manager::AssetCache;
+    const LIMIT: u64 = 2_000_000;
+    let src = MemSource::new(true);
+    src.tree().put("a", "v", b"1".to_vec(), Variant::Buffer);
+    let cache = AssetCache::with_source(src.handle());
+    let _ = cache.load::<crate::props::common::Ver>("a");
+    let Some(sender) = src.sender() else { return };
+    let sent = AtomicU64::new(0);
+    let stop = AtomicBool::new(false);
+    let during = std::thread::scope(|s| {
+        for _ in 0..producers {
+            let (sender, sent, stop) = (sender.clone(), &sent, &stop);
+            s.spawn(move || {
+                let e = assets_manager::source::OwnedDirEntry::File("a".into(), "zz".into());
+                while !stop.load(SeqCst) && sent.load(SeqCst) < 3 * LIMIT {
+                    let _ = sender.send(e.clone());
+                    sent.fetch_add(1, SeqCst);
+                }
+            });
+        }
+        // let the flood build up a little
+        while sent.load(SeqCst) < 20_000 {
+            std::hint::spin_loop();
+        }
+        let before = sent.load(SeqCst);
+        cache.hot_reload();
+        let during = sent.load(SeqCst) - before;
+        stop.store(true, SeqCst);
+        during
+    });
+    if during >= LIMIT {
+        out.fail(
+            "call-lasts-as-long-as-the-flood",
+            format!("{producers} threads were sending notifications (for an entry nothing depends on) when hot_reload was called: the call returned only after {during} more notifications had been sent - it is not a bounded amount of work"),
+        );
+    }
+    out.label("notification-flood");
+}
 
 /// The source handed to the reloader thread: its destructor (run when that thread stops, just before the thread
 /// tells the waiting callers that it is gone) parks until the harness releases it, so that the stop can be aimed
@@ -166,7 +213,7 @@ impl Prop for C08 {
 
     fn rule(&self) -> String {
         "cases = (1..6 compound nodes whose recipes load leaves and get_cached ANY node - themselves and each other, so that look-up cycles of every length arise - with generated busy work in the loader; \
-         1..8 threads each calling hot_reload 20..300 times; 0..3 threads loading and inserting concurrently; bursts of notified edits (single or batched) sent meanwhile; optionally a node that after a rewrite loads 100..1500 never-seen assets within one reload; in a fifth of the cases the source drops its event sender after 0..3 rounds (a watcher that dies: the reloader thread ends and the remaining calls must degrade to no-ops); in a third of the cases 100..600 notifications of one leaf are then sent back to back while one caller keeps calling (one call = one pass: the leaf is read at most once per call); in a quarter 100..500 rounds of {fresh cache whose reloader is parked in the destructor of its source after the sender was dropped, then released at a swept instant against 2..6 callers entering hot_reload}). \
+         1..8 threads each calling hot_reload 20..300 times; 0..3 threads loading and inserting concurrently; bursts of notified edits (single or batched) sent meanwhile; optionally a node that after a rewrite loads 100..1500 never-seen assets within one reload; in a fifth of the cases the source drops its event sender after 0..3 rounds (a watcher that dies: the reloader thread ends and the remaining calls must degrade to no-ops); in a third of the cases 100..600 notifications of one leaf are then sent back to back while one caller keeps calling (one call = one pass: the leaf is read at most once per call); in a quarter 100..500 rounds of {fresh cache whose reloader is parked in the destructor of its source after the sender was dropped, then released at a swept instant against 2..6 callers entering hot_reload}; in a sixth one hot_reload call against 3..6 threads flooding the event channel (the call must be back before 2 million more notifications were sent). \
          Oracle: every call returns (the supervisor's blocked-state detector: all threads asleep with zero CPU while the case is unfinished = deadlock; never a timeout), the process does not abort (worker exit status), \
          and the reloader never loads or reads while no thread is inside hot_reload (a caller released by somebody else's answer leaves its own request to be served later), and after all callers returned a freshly notified change is still applied within 4000 calls (unless the watcher died). \
          non-trivial = at least two hot_reload requests were in flight at once, or a look-up cycle received an event; distinct = different canonical JSON"
@@ -212,11 +259,12 @@ impl Prop for C08 {
                     prop_oneof![4 => Just(None), 1 => (0u8..4).prop_map(Some)],
                     prop_oneof![2 => Just(0u16), 1 => 100u16..600],
                     prop_oneof![3 => Just(0u16), 1 => 100u16..500],
+                    prop_oneof![5 => Just(0u8), 1 => 3u8..7],
                 )
             })
-            .prop_map(|(kinds, recipes, callers, iters, loaders, bursts, batched, pack, watcher_dies_after, stream, stop_races)| {
+            .prop_map(|(kinds, recipes, callers, iters, loaders, bursts, batched, pack, watcher_dies_after, stream, stop_races, flood)| {
                 let nodes = kinds.iter().enumerate().map(|(i, k)| NodeDef { kind: *k, id: format!("n{i}"), ops: recipes[i].clone() }).collect();
-                to_case(&Case { nodes, callers, iters, loaders, bursts, batched, pack, watcher_dies_after, stream, stop_races })
+                to_case(&Case { nodes, callers, iters, loaders, bursts, batched, pack, watcher_dies_after, stream, stop_races, flood })
             })
             .boxed()
     }
@@ -474,6 +522,9 @@ impl Prop for C08 {
         let _ = hot::LEAVES;
         drop(w);
         memsrc::set_observer(None);
+        if c.flood > 0 && !out.failed() {
+            flood(c.flood, &mut out);
+        }
         if c.stop_races > 0 && !out.failed() {
             stop_races(c.stop_races, 2 + (c.callers % 5));
             out.label("reloader-stops-under-callers");
@@ -482,6 +533,6 @@ impl Prop for C08 {
     }
 
     fn required_labels(&self) -> Vec<&'static str> {
-        vec!["requests-queued>=2", "lookup-cycle", "concurrent-loaders", "watcher-died-while-callers-run", "sustained-notification-stream", "reloader-stops-under-callers"]
+        vec!["requests-queued>=2", "lookup-cycle", "concurrent-loaders", "watcher-died-while-callers-run", "sustained-notification-stream", "reloader-stops-under-callers", "notification-flood"]
     }
 }
